@@ -1,4 +1,138 @@
+/-
+C06 — property theorems (statements fixed by the architect; do not weaken).
+`Gen.Alto.sepIsSpace` is GENERATED from the source on every run; it may be evaluated ONLY in
+`sep_is_space` (by `rfl`); lemmas that need it take it as a hypothesis.
+Helper lemmas: PeroVerif/Lemmas/Arabic.lean and PeroVerif/Lemmas/AltoText.lean.
+-/
 import PeroVerif.Model.Arabic
+import PeroVerif.Model.AltoText
+import PeroVerif.Lemmas.Arabic
+import PeroVerif.Lemmas.AltoText
+
 namespace C06
-theorem placeholder : (1:Nat) = 1 := rfl
+open Py
+
+/-! ### the Arabic logical/label order conversion -/
+
+/-- only reorders characters: none added, dropped or changed — for every classification -/
+theorem reverse_perm (isA isD : Nat → Bool) (s : List Nat) : (Ar.reverse isA isD s).Perm s := by
+  rw [Ar.reverse_eq_spec]; exact Ar.spec_perm isA isD s
+
+/-- applying it twice returns the original string — for every string mixing Arabic words, other
+words, numbers, delimiters and blanks (incl. leading/trailing delimiters), provided no character is
+both Arabic and a delimiter (true of the real tables; checked at run time) -/
+theorem reverse_involutive (isA isD : Nat → Bool) (hdisj : ∀ c, ¬ (isA c = true ∧ isD c = true))
+    (s : List Nat) : Ar.reverse isA isD (Ar.reverse isA isD s) = s := by
+  have _ := hdisj  -- not needed: the machine tests `isA` first, so the classes are disjoint anyway
+  rw [Ar.reverse_eq_spec, Ar.reverse_eq_spec]; exact Ar.spec_involutive isA isD s
+
+/-! ### words of a line -/
+
+/-- obligation on the generated flag: word spans are cut at the same white space as `str.split()` -/
+theorem sep_is_space : Gen.Alto.sepIsSpace = true := rfl
+
+/-- `str.split()` neither loses nor invents nor reorders non-blank characters, and its words are
+non-empty and blank-free -/
+theorem pySplit_spec (isSpace : Nat → Bool) (s : Str) :
+    (Alto.pySplit isSpace s).flatten = s.filter (fun c => !isSpace c) ∧
+    ∀ w ∈ Alto.pySplit isSpace s, w ≠ [] ∧ ∀ c ∈ w, isSpace c = false := by
+  refine ⟨?_, ?_⟩
+  · simpa [Alto.pySplit] using Alto.pySplitAux_flatten isSpace s []
+  · exact Alto.pySplitAux_words isSpace s [] (by simp)
+
+/-- as many word spans as words -/
+theorem spans_length (isSpace : Nat → Bool) (s : Str) :
+    (Alto.spans (Alto.spaceIdxs isSpace s)).length = (Alto.pySplit isSpace s).length := 
+  Alto.spans_length sep_is_space isSpace s
+
+/-- In BOTH branches (alignable or not) the export never raises and the String contents are exactly
+the whitespace-separated words of the transcription, each through the order conversion. -/
+theorem words_eq_split (isSpace : Nat → Bool) (conv : Str → Str) (aligned : Bool) (s : Str) :
+    ∃ n, Alto.lineWords isSpace conv aligned s = .words ((Alto.pySplit isSpace s).map conv) n ∧
+      (aligned = true → n = (Alto.pySplit isSpace s).length - 1) := 
+  Alto.lineWords_eq sep_is_space isSpace conv aligned s
+
+/-- a line is exported iff its transcription has a non-blank character -/
+theorem exported_iff (isSpace : Nat → Bool) (s : Str) :
+    Alto.exported isSpace (some s) = true ↔ Alto.pySplit isSpace s ≠ [] := by
+  have h := Alto.pySplitAux_eq_nil isSpace s []
+  simp only [true_and] at h
+  simp only [Alto.exported, Alto.pySplit, ne_eq, h]
+  cases List.all s isSpace <;> simp
+
+/-! ### print space and margins -/
+
+/-- a block lies inside an `H × W` page -/
+def Inside (H W : Int) (b : Alto.Box) : Prop :=
+  0 ≤ b.height ∧ 0 ≤ b.width ∧ 0 ≤ b.vpos ∧ 0 ≤ b.hpos ∧ b.vpos + b.height ≤ H ∧ b.hpos + b.width ≤ W
+
+/-- `get_hwvh` is the bounding box of the polygon -/
+theorem hwvh_bbox (poly : List (Int × Int)) (h : poly ≠ []) :
+    let b := Alto.hwvh poly
+    (∀ p ∈ poly, b.hpos ≤ p.1 ∧ p.1 ≤ b.hpos + b.width ∧ b.vpos ≤ p.2 ∧ p.2 ≤ b.vpos + b.height) ∧
+    (∃ p ∈ poly, p.1 = b.hpos) ∧ (∃ p ∈ poly, p.1 = b.hpos + b.width) ∧
+    (∃ p ∈ poly, p.2 = b.vpos) ∧ (∃ p ∈ poly, p.2 = b.vpos + b.height) := by
+  have hx : poly.map (·.1) ≠ [] := by simpa using h
+  have hy : poly.map (·.2) ≠ [] := by simpa using h
+  obtain ⟨xMm, xMb⟩ := Alto.maxL_spec 0 _ hx
+  obtain ⟨xmm, xmb⟩ := Alto.minL_spec 0 _ hx
+  obtain ⟨yMm, yMb⟩ := Alto.maxL_spec 0 _ hy
+  obtain ⟨ymm, ymb⟩ := Alto.minL_spec 0 _ hy
+  simp only [Alto.hwvh]
+  refine ⟨?_, ?_, ?_, ?_, ?_⟩
+  · intro p hp
+    have h1 := xMb p.1 (List.mem_map_of_mem hp)
+    have h2 := xmb p.1 (List.mem_map_of_mem hp)
+    have h3 := yMb p.2 (List.mem_map_of_mem hp)
+    have h4 := ymb p.2 (List.mem_map_of_mem hp)
+    omega
+  · obtain ⟨p, hp, e⟩ := List.mem_map.mp xmm
+    exact ⟨p, hp, e⟩
+  · obtain ⟨p, hp, e⟩ := List.mem_map.mp xMm
+    exact ⟨p, hp, by omega⟩
+  · obtain ⟨p, hp, e⟩ := List.mem_map.mp ymm
+    exact ⟨p, hp, e⟩
+  · obtain ⟨p, hp, e⟩ := List.mem_map.mp yMm
+    exact ⟨p, hp, by omega⟩
+
+/-- The print space is the bounding box of the text blocks: it contains every block and each of its
+four sides touches some block. -/
+theorem printspace_is_bbox (H W : Int) (blocks : List Alto.Box) (hne : blocks ≠ [])
+    (hin : ∀ b ∈ blocks, Inside H W b) :
+    let p := Alto.printSpace H W blocks
+    (∀ b ∈ blocks, p.vpos ≤ b.vpos ∧ p.hpos ≤ b.hpos ∧ b.vpos + b.height ≤ p.vpos + p.height ∧
+        b.hpos + b.width ≤ p.hpos + p.width) ∧
+    (∃ b ∈ blocks, b.vpos = p.vpos) ∧ (∃ b ∈ blocks, b.hpos = p.hpos) ∧
+    (∃ b ∈ blocks, b.vpos + b.height = p.vpos + p.height) ∧
+    (∃ b ∈ blocks, b.hpos + b.width = p.hpos + p.width) := by
+  obtain ⟨hv, hh, hb, hr⟩ := Alto.printSpace_facts H W blocks hne hin
+  obtain ⟨eh, ew⟩ := Alto.psFold_hw blocks hne ⟨0, 0, H, W, 0, 0⟩
+  simp only [Alto.printSpace] at *
+  obtain ⟨⟨-, v2, -⟩, ⟨-, h2, -⟩, ⟨-, b2, -⟩, ⟨-, r2, -⟩⟩ := Alto.psFold_spec blocks ⟨0, 0, H, W, 0, 0⟩
+  refine ⟨?_, hv, hh, ?_, ?_⟩
+  · intro b hb'
+    have := v2 b hb'; have := h2 b hb'; have := b2 b hb'; have := r2 b hb'
+    clear hv hh hb hr
+    omega
+  · obtain ⟨b, hb', e⟩ := hb
+    exact ⟨b, hb', by omega⟩
+  · obtain ⟨b, hb', e⟩ := hr
+    exact ⟨b, hb', by omega⟩
+
+/-- The four margins cover the rest of the page: together with the print space's column/row they
+tile `H × W` (top above, bottom below, left and right full height). -/
+theorem margins_cover (H W : Int) (blocks : List Alto.Box) (hne : blocks ≠ [])
+    (hin : ∀ b ∈ blocks, Inside H W b) :
+    let p := Alto.printSpace H W blocks
+    Alto.margins H W p =
+      [⟨p.vpos, W, 0, 0⟩, ⟨H, p.hpos, 0, 0⟩, ⟨H, W - (p.hpos + p.width), 0, p.hpos + p.width⟩,
+       ⟨H - (p.vpos + p.height), W, p.vpos + p.height, 0⟩] ∧
+    0 ≤ p.vpos ∧ 0 ≤ p.hpos ∧ 0 ≤ W - (p.hpos + p.width) ∧ 0 ≤ H - (p.vpos + p.height) := by
+  obtain ⟨⟨bv, hbv, ev⟩, ⟨bh, hbh, eh'⟩, ⟨bb, hbb, eb⟩, ⟨br, hbr, er⟩⟩ :=
+    Alto.printSpace_facts H W blocks hne hin
+  obtain ⟨eh, ew⟩ := Alto.psFold_hw blocks hne ⟨0, 0, H, W, 0, 0⟩
+  have i1 := hin bv hbv; have i2 := hin bh hbh; have i3 := hin bb hbb; have i4 := hin br hbr
+  simp only [Inside, Alto.printSpace] at *
+  refine ⟨rfl, ?_, ?_, ?_, ?_⟩ <;> omega
+
 end C06
